@@ -9,9 +9,10 @@
 import Drv.Util
 import Nq.RemoteSmtp
 import Nq.RspawnReport
+import Nq.RemoteConnect
 import Nq.Spec.RemoteVerdict
 
-open Nq Nq.SmtpOut Nq.RemoteSmtp Nq.RspawnReport Nq.Spec.RemoteVerdict Drv
+open Nq Nq.SmtpOut Nq.RemoteSmtp Nq.RspawnReport Nq.RemoteConnect Nq.Spec.RemoteVerdict Drv
 
 def parseWPoint (s : String) : Option (Option WPoint) :=
   if s == "none" then some none
@@ -60,10 +61,6 @@ def parseOut (out : Bytes) : Option Obs :=
       some ⟨rl, headB m, hasInfix dupMark m⟩
     else none
 
-/-- codes by the line-based reading, when every line is well formed and every reply starts with digits -/
-def specCodes (stream : Bytes) : Option (List Nat) :=
-  if wfLines stream then (specFrames stream).mapM decCode else none
-
 def handleS (st : Stats) (line : String) (f : List String) : IO Stats := do
   match f with
   | [_, ipS, heloS, senderS, rcptsS, msgS, msgerrS, streamS, chunk, wk, endmode, wlabelS, outS, wireS, exitS, relayS] =>
@@ -82,7 +79,7 @@ def handleS (st : Stats) (line : String) (f : List String) : IO Stats := do
       -- model
       let res := smtpRun a sc
       let mout := render res
-      let mrelay := rreport 0 out [33]
+      let mrelay := rreport 0 out
       if !(mout == out && wireAgrees res msg wire && exitS == "0" && mrelay == relay) then
         IO.println s!"DISAGREE kind=S in={streamS} ip={ipS} helo={heloS} sender={senderS} rcpts={rcptsS} msg={msgS} msgerr={msgerrS} chunk={chunk} wk={wk} endmode={endmode} wlabel={wlabelS} impl_out={outS} impl_wire={wireS} exit={exitS} impl_relay={relayS} model_out={hex mout} model_wire={hex res.wire} model_relay={hex mrelay}"
         st := { st with disagree := st.disagree + 1 }
@@ -98,17 +95,19 @@ def handleS (st : Stats) (line : String) (f : List String) : IO Stats := do
       match parseOut out with
       | none => why := why ++ "malformed_report_stream,"
       | some o =>
-        if !kSound as o then why := why ++ "K_unsound,"
+        if !kSoundQ as o then why := why ++ "K_unsound,"
         if !rcptOrder as o then why := why ++ "recipient_reports_wrong_or_out_of_order,"
-        if !verdictOK e.v o then why := why ++ "wrong_class,"
+        if !verdictOKq as o then why := why ++ "wrong_class,"
         if o.rl != e.rl then why := why ++ "recipient_classes,"
+        if !wireOrderQ a (encodedBody msg) wire o (wf == some .quit) then why := why ++ "commands_out_of_order_or_missing,"
         st := st.bump ("verdict_" ++ String.singleton (Char.ofNat o.ml.toNat) ++ (if o.dup then "_dup" else ""))
         if fresh && (o.ml != cK || stream.contains DASH) then st := { st with nontrivial := st.nontrivial + 1 }
       -- the relayed line
       if !rspawnSound 0 out relay then why := why ++ "relay_K_unsound,"
       if !rspawnClasses 0 out relay then why := why ++ "relay_class,"
       if !noUpgrade out relay then why := why ++ "relay_upgrade,"
-      if headB relay == cK && !(e.v == .K && e.rl.head? == some lR) then why := why ++ "relay_K_but_not_accepted,"
+      if !relayWithin out relay then why := why ++ "relay_text_not_from_output,"
+      if headB relay == cK && !(((e.v == .K) || (expect (quitOK as)).v == .K) && e.rl.head? == some lR) then why := why ++ "relay_K_but_not_accepted,"
       if why != "" then
         IO.println s!"ORACLE kind=S in={streamS} why={why} ip={ipS} helo={heloS} sender={senderS} rcpts={rcptsS} msg={msgS} msgerr={msgerrS} chunk={chunk} wk={wk} endmode={endmode} wlabel={wlabelS} out={outS} wire={wireS} exit={exitS} relay={relayS} expected={verdictStr e.v}"
         st := { st with oracle := st.oracle + 1 }
@@ -130,7 +129,7 @@ def handleR (st : Stats) (line : String) (f : List String) : IO Stats := do
       let mut st := { st with cases := st.cases + 1, seen := st.seen.insert inKey }
       st := st.bump "report_cases"
       if fresh && wstat == 0 && out.contains NUL then st := { st with nontrivial := st.nontrivial + 1 }
-      let m := rreport wstat out [33]
+      let m := rreport wstat out
       if m != relay then
         IO.println s!"DISAGREE kind=R in={outS} wstat={wstatS} impl_relay={relayS} model_relay={hex m}"
         st := { st with disagree := st.disagree + 1 }
@@ -138,6 +137,7 @@ def handleR (st : Stats) (line : String) (f : List String) : IO Stats := do
       if !rspawnSound wstat out relay then why := why ++ "relay_K_unsound,"
       if !rspawnClasses wstat out relay then why := why ++ "relay_class,"
       if wstat == 0 && !out.isEmpty && !noUpgrade out relay then why := why ++ "relay_upgrade,"
+      if wstat % 128 == 0 && wstat / 256 == 0 && !out.isEmpty && !relayWithin out relay then why := why ++ "relay_text_not_from_output,"
       if why != "" then
         IO.println s!"ORACLE kind=R in={outS} why={why} wstat={wstatS} relay={relayS}"
         st := { st with oracle := st.oracle + 1 }
@@ -146,11 +146,70 @@ def handleR (st : Stats) (line : String) (f : List String) : IO Stats := do
     | _, _, _ => IO.println s!"DISAGREE unparsable line {line}"; return { st with disagree := st.disagree + 1 }
   | _ => IO.println s!"DISAGREE unparsable line {line}"; return { st with disagree := st.disagree + 1 }
 
+def parseCand (s : String) : Option Cand :=
+  match s.splitOn ":" with
+  | [ipS, prefS, meS, skipS, connS] =>
+    match parseIp ipS, prefS.toNat?, connS.toNat? with
+    | some host, some pref, some conn => some { host, pref, isMe := meS == "1", skip := skipS == "1", conn }
+    | _, _, _ => none
+  | _ => none
+
+def parseCands (s : String) : Option (List Cand) :=
+  if s == "." then some [] else (s.splitOn ",").mapM parseCand
+
+def traceStr (t : List (Nat × Bool)) : String :=
+  if t.isEmpty then "." else ",".intercalate (t.map (fun (i, f) => s!"{i}:{if f then 1 else 0}"))
+
+/-- M lines: the real main() from the DNS result on. Oracle: connect trouble / DNS trouble is never `K`,
+    `temp_noconn` exactly when no eligible address connects, the address used is the first eligible one
+    that connects (`preOK`), plus the smtp() predicates when a connection was made. -/
+def handleM (st : Stats) (line : String) (f : List String) : IO Stats := do
+  match f with
+  | [_, dnsS, candsS, streamS, wk, wlabelS, outS, wireS, exitS, traceS] =>
+    match dnsS.toInt?, parseCands candsS, unhex streamS, parseWPoint wlabelS, unhex outS, unhex wireS with
+    | some dnsret, some cs, some stream, some wf, some out, some wire =>
+      let a : Args := { host := [], helo := lit "me.example", sender := lit "s@a.example", rcpts := [lit "r0@b.example"],
+                        msg := lit "Subject: x\n\nbody\n", msgErr := false }
+      let inKey := hash (String.intercalate " " ["M", dnsS, candsS, streamS, wlabelS])
+      let fresh := !st.seen.contains inKey
+      let mut st := { st with cases := st.cases + 1, seen := st.seen.insert inKey }
+      st := st.bump "main_cases"
+      let res := mainRun dnsret (lit "host.example") cs a ⟨stream, wf⟩
+      let mtrace := traceStr (connectTrace dnsret cs)
+      if !(render res == out && wireAgrees res a.msg wire && exitS == "0" && mtrace == traceS) then
+        IO.println s!"DISAGREE kind=M in={streamS} dnsret={dnsS} cands={candsS} wk={wk} wlabel={wlabelS} impl_out={outS} impl_wire={wireS} exit={exitS} impl_trace={traceS} model_out={hex (render res)} model_wire={hex res.wire} model_trace={mtrace}"
+        st := { st with disagree := st.disagree + 1 }
+      -- oracle
+      let mut why := ""
+      if exitS != "0" then why := why ++ "exit_nonzero,"
+      match parseOut out with
+      | none => why := why ++ "malformed_report_stream,"
+      | some o =>
+        if !preOK dnsret cs o then why := why ++ "connect_phase,"
+        if dnsret ≥ 0 && !hostNamed cs out then why := why ++ "wrong_address,"
+        st := st.bump ("main_verdict_" ++ String.singleton (Char.ofNat o.ml.toNat))
+        if fresh && o.ml != cK then st := { st with nontrivial := st.nontrivial + 1 }
+        match connectPhase dnsret (lit "host.example") cs with
+        | .connected _ h =>
+          let codes := match specCodes stream with | some c => c | none => (frames .d1 [] stream).map codeNat
+          let as : AScript := { codes, n := 1, msgErr := false, msgPartial := false, wfail := wf }
+          if !kSoundQ as o then why := why ++ "K_unsound,"
+          if !verdictOKq as o then why := why ++ "wrong_class,"
+          if !wireOrderQ { a with host := h } (encodedBody a.msg) wire o (wf == some .quit) then why := why ++ "commands_out_of_order_or_missing,"
+        | .report _ => if !wire.isEmpty then why := why ++ "wrote_without_connection,"
+      if why != "" then
+        IO.println s!"ORACLE kind=M in={streamS} why={why} dnsret={dnsS} cands={candsS} wk={wk} wlabel={wlabelS} out={outS} wire={wireS} exit={exitS} trace={traceS}"
+        st := { st with oracle := st.oracle + 1 }
+      return st
+    | _, _, _, _, _, _ => IO.println s!"DISAGREE unparsable line {line}"; return { st with disagree := st.disagree + 1 }
+  | _ => IO.println s!"DISAGREE unparsable line {line}"; return { st with disagree := st.disagree + 1 }
+
 def handle (st : Stats) (line : String) : IO Stats := do
   let f := fields line
   match f.head? with
   | some "S" => handleS st line f
   | some "R" => handleR st line f
+  | some "M" => handleM st line f
   | _ => IO.println s!"DISAGREE unparsable line {line}"; return { st with disagree := st.disagree + 1 }
 
 def main : IO Unit := runDriver handle
